@@ -13,6 +13,7 @@
   choice that returns permutations (`SortParamsOk`).
 -/
 import FcProofs.Lemmas.C08Transform
+import FcProofs.Lemmas.Extend
 namespace Fc
 open Spec
 
@@ -269,5 +270,120 @@ theorem C08_compose (P : SortParams) (hP : SortParamsOk P) (ts : List Reordering
       obtain ⟨c1, w1⟩ := C08_reordering P hP t f f1 h h1
       obtain ⟨c2, w2⟩ := ih f1 w1 hr
       exact ⟨c1.trans c2, w2⟩
+
+/-! ### dimension extension -/
+
+/-- **C08 (extend = zero-padded copy, entry by entry).**  For every target dimension `sd`:
+    `extend_space_dimension_to` returns exactly the specification `Spec.extendSpec` — the copy whose
+    point `p` has coordinates `(x_0 … x_{d-1}, 0 … 0)`, whose vector entries `(i, c)` / tensor entries
+    `(i, r, c)` are the old entries when `r, c < d` and `0` otherwise, with scalars (shape `(n,)`,
+    `(n, 1)`), fields that already have `sd` components, connectivity and cell types untouched —
+    and it raises exactly when the specification is undefined (`sd < d`; a vector/tensor field whose
+    component count fits neither dimension; rank > 3).
+    Hypothesis `NoUnitAxis`: no tensor field with an axis of length 1 (numpy would broadcast it,
+    see `C08_extend_error_only_partial`). -/
+theorem C08_extend (f : MeshFields) (h : WFP f) (sd : Nat)
+    (hp : ∀ pf ∈ f.pointFields, NoUnitAxis f.mesh.dim sd pf.values)
+    (hc : ∀ cf ∈ f.cellFields, NoUnitAxis f.mesh.dim sd cf.values) :
+    extendSpaceDim sd f = extendSpec sd f :=
+  extend_eq_spec f h sd hp hc
+
+/-- **C08 (extend: never a wrong array) — partial.**
+    Full statement (FALSE for the code as it is): for every well-formed `f`, `sd`, `f'`:
+      `extendSpaceDim sd f = some f' → extendSpec sd f = some f'`.
+    It fails when a tensor field has an axis of length 1 on a mesh of dimension 2: numpy broadcasts
+    the assignment `result[:, :2, :2] = values` and the single value is written into 2 or 4 slots
+    (negation witness: `FcProofs/Witness/C08.lean`).  Proved under `NoUnitAxis`. -/
+theorem C08_extend_error_only_partial (f f' : MeshFields) (h : WFP f) (sd : Nat)
+    (hp : ∀ pf ∈ f.pointFields, NoUnitAxis f.mesh.dim sd pf.values)
+    (hc : ∀ cf ∈ f.cellFields, NoUnitAxis f.mesh.dim sd cf.values)
+    (hr : extendSpaceDim sd f = some f') : extendSpec sd f = some f' := by
+  rw [← extend_eq_spec f h sd hp hc]; exact hr
+
+/-- **C08 (extend: mesh part, no hypothesis at all).**  Whatever the fields look like: if the
+    extension returns, the cells are untouched, the space dimension is the target and every point
+    got exactly `sd − d` zero coordinates appended (no point added, dropped or moved). -/
+theorem C08_extend_mesh (f f' : MeshFields) (sd : Nat) (hr : extendSpaceDim sd f = some f') :
+    f'.mesh.cells = f.mesh.cells ∧ f'.mesh.dim = sd ∧
+    f'.mesh.points = f.mesh.points.map (fun p => p ++ zeros (sd - f.mesh.dim)) := by
+  by_cases hne : sd = f.mesh.dim
+  · have : f' = f := by
+      unfold extendSpaceDim at hr
+      simp only [hne, if_true, Option.some.injEq] at hr
+      exact hr.symm
+    subst this
+    refine ⟨rfl, hne.symm, ?_⟩
+    simp [hne, zeros]
+  · obtain ⟨_, hm, _, _⟩ := extend_some hr hne
+    rw [hm]
+    exact ⟨rfl, rfl, rfl⟩
+
+/-- **C08 (extend leaves scalar fields alone).**  Point and cell fields of shape `(n,)` or `(n, 1)`
+    come back unchanged, at the same position in the field lists. -/
+theorem C08_extend_scalar_untouched (f f' : MeshFields) (sd : Nat) (hr : extendSpaceDim sd f = some f') :
+    (∀ i (h1 : i < f.pointFields.length) (h2 : i < f'.pointFields.length),
+      fieldKind f.pointFields[i].values.shape = .scalar → f'.pointFields[i] = f.pointFields[i]) ∧
+    (∀ i (h1 : i < f.cellFields.length) (h2 : i < f'.cellFields.length),
+      fieldKind f.cellFields[i].values.shape = .scalar → f'.cellFields[i] = f.cellFields[i]) := by
+  by_cases hne : sd = f.mesh.dim
+  · have : f' = f := by
+      unfold extendSpaceDim at hr
+      simp only [hne, if_true, Option.some.injEq] at hr
+      exact hr.symm
+    subst this
+    exact ⟨fun _ _ _ _ => rfl, fun _ _ _ _ => rfl⟩
+  · obtain ⟨_, _, hpf, hcf⟩ := extend_some hr hne
+    constructor
+    · intro i h1 h2 hk
+      have := congrArg (fun l => l[i]?) hpf
+      simp only [List.getElem?_map, List.getElem?_eq_getElem h1, List.getElem?_eq_getElem h2,
+        Option.map_some, resizedField_scalar _ _ _ hk, Option.some.injEq] at this
+      exact this.symm
+    · intro i h1 h2 hk
+      have := congrArg (fun l => l[i]?) hcf
+      simp only [List.getElem?_map, List.getElem?_eq_getElem h1, List.getElem?_eq_getElem h2,
+        Option.map_some, resizedField_scalar _ _ _ hk, Option.some.injEq] at this
+      exact this.symm
+
+/-- **C08 (extend keeps every point and every cell).**  The collection of point items over
+    connected points and the collection of cell items keep their size and order; coordinates (of the
+    points, and of the corners of every cell) are the old ones with `sd − d` zeros appended. -/
+theorem C08_extend_content (f f' : MeshFields) (h : WFP f) (sd : Nat)
+    (hr : extendSpaceDim sd f = some f') :
+    f'.pointContent.map (·.coords) =
+      f.pointContent.map (fun it => it.coords ++ zeros (sd - f.mesh.dim)) ∧
+    f'.cellContent.map (fun it => (it.ctype, it.corners)) =
+      f.cellContent.map (fun it => (it.ctype, it.corners.map (· ++ zeros (sd - f.mesh.dim)))) := by
+  obtain ⟨hcells, _, hpts⟩ := C08_extend_mesh f f' sd hr
+  have hconn : f'.mesh.connected = f.mesh.connected := by
+    funext p; simp [Mesh.connected, hcells]
+  have hn : f'.mesh.numPoints = f.mesh.numPoints := by simp [Mesh.numPoints, hpts]
+  have hget : ∀ p, p < f.mesh.numPoints →
+      f'.mesh.points.getD p [] = f.mesh.points.getD p [] ++ zeros (sd - f.mesh.dim) := by
+    intro p hp
+    rw [hpts]
+    simp [List.getD_eq_getElem?_getD, Mesh.numPoints] at hp ⊢
+    simp [hp]
+  constructor
+  · unfold MeshFields.pointContent
+    rw [hconn, hn, List.map_map, List.map_map]
+    apply List.map_congr_left
+    intro p hp
+    have hp' : p < f.mesh.numPoints := List.mem_range.mp (List.mem_filter.mp hp).1
+    simp only [Function.comp, MeshFields.pointItem]
+    exact hget p hp'
+  · unfold MeshFields.cellContent
+    rw [hcells, List.map_flatMap, List.map_flatMap]
+    apply List.flatMap_congr
+    intro b hb
+    rw [List.map_map, List.map_map]
+    apply List.map_congr_left
+    intro c hc
+    have hc' : c < b.2.length := List.mem_range.mp hc
+    simp only [Function.comp, MeshFields.cellItem, Prod.mk.injEq, true_and, List.map_map]
+    apply List.map_congr_left
+    intro p hp
+    have hrow : b.2.getD c [] ∈ b.2 := by rw [getD_of_lt _ _ hc']; exact List.getElem_mem hc'
+    exact hget p (h.inRange b hb _ hrow p hp)
 
 end Fc
